@@ -19,7 +19,7 @@ import DefconModel.Lemmas.ReprKey
 import DefconModel.Lemmas.ReprGeom
 import DefconModel.Lemmas.ReprDom
 import DefconModel.Lemmas.ReprDep
-import DefconModel.Lemmas.ReprHold
+import DefconModel.Lemmas.ReprHoldMove
 import DefconModel.ReprLayers
 import DefconModel.Spec.ReprCells
 import DefconModel.Gen.ReprTables
@@ -390,15 +390,15 @@ theorem disable_loses_eviction :
 /-- The statement of what the code guarantees around user holds: `InvH` - every cached value of every object is what
 its factory computes now, OR a post that destroys it is waiting in the queue of a hold that is still in force - is kept
 by every operation: holds and releases (counted, nested, of contours, components, glyphs, the groups, released in any
-order), requests, cache calls, and every inner mutator while something is held, anything at all while nothing is. -/
+order), requests, cache calls, and every inner mutator and `Contour.move` while something is held, anything at all while
+nothing is. -/
 def HoldInvariant (P : Params V) (T : Tables) : Prop :=
   ∀ (hw0 : HWorld V) (ops : List HOp), InvH P T hw0 →
     (∀ pre op, pre ++ [op] <+: ops → op.okIn (hrun P T hw0 pre) = true) →
     (∀ pre, pre <+: ops → Dom (hrun P T hw0 pre).w) → InvH P T (hrun P T hw0 ops)
 
 /-- **hold_invariant.**  See `HoldInvariant`.  Hypotheses: the coverage obligation (discharged over the regenerated
-tables), the patch of `Contour.move`, the structural domain at every step, no `disableNotifications`, `Contour.move` only
-while nothing is held (`HOp.okIn`). -/
+tables), the patch of `Contour.move`, the structural domain at every step, no `disableNotifications` (`HOp.okIn`). -/
 theorem hold_invariant (P : Params V) (T : Tables) (hcov : Coverage T = true) (hpatch : PatchOK P) :
     HoldInvariant P T := by
   intro hw0 ops h0 hok hdom
